@@ -21,6 +21,7 @@ import (
 const repoName = "remote"
 
 type World struct {
+	Linked  string   // directory of the linked worktree, if one was added
 	cleanup []func() // run by Close (scratch outside the world's root)
 	Env     *gitenv.Env
 	Srv     *lfsserver.Server
@@ -300,6 +301,17 @@ func (w *World) Commit(b, p, blob string, age int) error {
 		os.Remove(file)
 		w.Env.RunIn(w.Clone, skipSmudge, nil, 0, "git", "checkout", "-q", "--", PathFile(p))
 		w.Env.Git(w.Clone, "update-index", "-q", "--refresh")
+	}
+	return nil
+}
+
+// AddWorktree checks branch b out in a linked worktree next to the clone (pointer files only).
+func (w *World) AddWorktree(b string) error {
+	w.Linked = filepath.Join(filepath.Dir(w.Clone), "linked")
+	w.logf("git worktree add %s %s", w.Linked, b)
+	r := w.Env.RunIn(w.Clone, skipSmudge, nil, 60*time.Second, "git", "worktree", "add", "-q", w.Linked, b)
+	if !r.OK() {
+		return fmt.Errorf("worktree add: %s", r.All())
 	}
 	return nil
 }
